@@ -188,6 +188,31 @@ def scan_n_advance(NG, SG, NL, SL):
     return bad, n_eval
 
 
+def scan_opt0_table(LG, MG):
+    """Planner-level *guide* for Revolve: the repo's memory-only cost table
+    get_opt_0_table(lmax, mmax, uf, ub) with unit costs, if it exists with the
+    known signature and meaning (entry [m][l] = Griewank-Walther total of
+    l + 1 steps with m units, which is first verified on the entries with
+    l < 40), compared with the validated closed form for l <= LG, m <= MG.
+    Returns the list of deviating (m, l) or None.  Never a verdict: a wrong
+    entry only matters if a split decision reads it, which is decided by
+    driving real Revolve schedules."""
+    try:
+        get_opt_0_table = common.repo_mod(
+            "hrevolve_sequences.revolve").get_opt_0_table
+        tab = get_opt_0_table(LG, MG, 1, 1)
+        T = refs.binomial_total_steps
+        val = lambda m, l: tab[m][l]      # noqa: E731
+        for m in range(1, MG + 1):
+            for l in range(0, 40):        # noqa: E741
+                if val(m, l) != T(l + 1, m):
+                    return None           # other meaning / other layout
+        return [(m, l) for m in range(1, MG + 1) for l in range(40, LG + 1)
+                if val(m, l) != T(l + 1, m)]
+    except Exception:  # noqa: BLE001
+        return None
+
+
 GUIDE = {"quick": dict(NG=300, SG=300, NL=4000, SL=4),
          "thorough": dict(NG=900, SG=900, NL=20000, SL=5)}
 
@@ -335,6 +360,47 @@ def check_c05(prop, tier):
                               f"{cfg!r}: {fwd} forward steps, optimum is "
                               f"{want} (found via the step-size scan: "
                               f"n_advance({n}, {s}, {traj!r}) {why})", rp)
+    # ---- the same for Revolve: deviating entries of its cost table point
+    #      at the (n, m) whose split decisions read them: n from l + 2 up to
+    #      2.5 l (a uniform error of a whole range of entries only tips a
+    #      decision near the end of the range)
+    LG, MG = (700, 5) if tier == "quick" else (1500, 8)
+    dev = scan_opt0_table(LG, MG)
+    if dev is None:
+        res.counters["revolve_table_scan"] = "skipped (no get_opt_0_table " \
+            "with the known signature and meaning)"
+    else:
+        res.counters["revolve_table_scan_entries"] = LG * MG
+        res.counters["revolve_table_scan_deviations"] = len(dev)
+        first = {}
+        for m, l in dev:                  # noqa: E741
+            first.setdefault(m, l)
+        cand = []
+        for m, l in sorted(first.items(), key=lambda x: x[1])[:2]:  # noqa: E741
+            cand += [D.Config("Revolve", (m, 1, 1, 2, 2), n)
+                     for n in range(l + 2, min(int(2.5 * l) + 20, 1200))]
+
+        def rev_worker(idxs):
+            return [(i,) + stream_cost(cand[i])[:3:2] for i in idxs]
+        hit = None
+        for part in common.pmap(rev_worker, len(cand)):
+            for i, fwd, err in part:
+                res.add(evaluations=1, traces_validated_against_impl=1)
+                want = refs.binomial_total_steps(cand[i].N, cand[i].params[0])
+                if (fwd is None or fwd != want) and \
+                        (hit is None or cand[i].N < hit[0].N):
+                    hit = (cand[i], fwd, want, err)
+        if hit is not None:
+            cfg, fwd, want, err = hit
+            rp = common.write_replay(prop, "Revolve_deep", {
+                "property": prop, "kind": "c05_stream",
+                "config": cfg.as_json(), "want": int(want), "got": fwd,
+                "err": err})
+            res.violation({"cls": "Revolve", "code": "steps_exceed_optimum"},
+                          f"{cfg!r}: {fwd} forward steps, optimum is {want} "
+                          "(found via the scan of the memory-only cost table: "
+                          f"{len(dev)} deviating entries, the first at "
+                          f"(m, l) = {dev[0]})", rp)
     res.cov["distinct_nontrivial"] = nontriv
     res.cov["rule"] = ("tier A: every (n,s) with n<=S solved on the full state "
                        "graph of M; library streams/helper for every (n,s) up "
